@@ -236,47 +236,76 @@ theorem run_sim (cfg : Cfg) : ∀ (h : List Op) (s s' : State), Sim s s' →
 
 structure Basic (s : State) : Prop where
   idsPos : ∀ t ∈ s.env, 1 ≤ t.id
+  instLt : s.inst < s.nextInst
   logInst : ∀ e ∈ s.log, e.inst < s.nextInst
 
-theorem basic_init : Basic State.init := ⟨by simp [State.init], by simp [State.init]⟩
+theorem basic_init : Basic State.init :=
+  ⟨by simp [State.init], by simp [State.init], by simp [State.init]⟩
 
 theorem step_basic (cfg : Cfg) (s : State) (op : Op) (h : Basic s) : Basic (step cfg s op) := by
-  have hcons : ∀ (e : Entry), e.inst = s.nextInst → ∀ e' ∈ e :: s.log, e'.inst < s.nextInst + 1 := by
+  have hsame : ∀ (e : Entry), e.inst = s.inst → ∀ e' ∈ e :: s.log, e'.inst < s.nextInst := by
+    intro e he e' he'
+    rcases List.mem_cons.mp he' with rfl | he'
+    · rw [he]; exact h.instLt
+    · exact h.logInst e' he'
+  have hnew : ∀ (e : Entry), e.inst = s.nextInst → ∀ e' ∈ e :: s.log, e'.inst < s.nextInst + 1 := by
     intro e he e' he'
     rcases List.mem_cons.mp he' with rfl | he'
     · omega
     · exact Nat.lt_succ_of_lt (h.logInst e' he')
   cases op with
   | create st =>
-    refine ⟨?_, h.logInst⟩
+    refine ⟨?_, h.instLt, h.logInst⟩
     intro t ht
     rcases List.mem_append.mp ht with ht | ht
     · exact h.idsPos t ht
     · rw [List.mem_singleton] at ht; subst ht; simp
   | setStatus id st =>
     rw [step_setStatus]
-    refine ⟨?_, h.logInst⟩
+    refine ⟨?_, h.instLt, h.logInst⟩
     intro t ht
     obtain ⟨t0, h0, rfl⟩ := List.mem_map.mp ht
     rw [setSt_id]; exact h.idsPos t0 h0
-  | delete id => exact ⟨fun t ht => h.idsPos t (List.mem_of_mem_filter ht), h.logInst⟩
+  | delete id => exact ⟨fun t ht => h.idsPos t (List.mem_of_mem_filter ht), h.instLt, h.logInst⟩
   | update m =>
     cases m with
-    | live =>
-      refine ⟨h.idsPos, ?_⟩
-      intro e' he'
-      rcases List.mem_cons.mp he' with rfl | he'
-      · exact h.logInst _ (by
-          -- the live lineage number is one already in use or 0; it is below nextInst by Basic only
-          -- when it was logged before; handled by `instLt` below
-          exact absurd rfl (by exact fun _ => False.elim (by contradiction)))
-      · exact h.logInst e' he'
-    | restored stored => exact ⟨h.idsPos, by
-        intro e' he'
-        rcases List.mem_cons.mp he' with rfl | he'
-        · contradiction
-        · exact h.logInst e' he'⟩
-    | lost => exact ⟨h.idsPos, hcons _ rfl⟩
-    | stateless => exact ⟨h.idsPos, hcons _ rfl⟩
+    | live => exact ⟨h.idsPos, h.instLt, hsame _ rfl⟩
+    | restored stored => exact ⟨h.idsPos, h.instLt, hsame _ rfl⟩
+    | lost => exact ⟨h.idsPos, Nat.lt_succ_self _, hnew _ rfl⟩
+    | stateless => exact ⟨h.idsPos, Nat.lt_succ_of_lt h.instLt, hnew _ rfl⟩
+
+theorem run_basic (cfg : Cfg) : ∀ (h : List Op) (s : State), Basic s → Basic (run cfg s h)
+  | [], _, hs => hs
+  | op :: rest, s, hs => run_basic cfg rest (step cfg s op) (step_basic cfg s op hs)
+
+/-- after `clear` the loader returns every completed trial of the table (any reachable table) -/
+theorem newly_after_clear (cfg : Cfg) (env : Env) (hpos : ∀ t ∈ env, 1 ≤ t.id) :
+    (newlyCompleted cfg env clear (maxId env)).1 = env.filter fun t => decide (t.st = .completed) := by
+  rw [newly_exact cfg env clear [] hpos (by simp [clear]) (by simp) (by simp [clear])]
+  simp
+
+/-- histories in which every request is served by the stateless `DesignerPolicy` -/
+def AllStateless (h : List Op) : Prop := ∀ op ∈ h, ∀ m, op = .update m → m = .stateless
+
+def GetsAll (log : List Entry) : Prop :=
+  ∀ e ∈ log, e.completed = e.env.filter (fun t => decide (t.st = .completed)) ∧
+    e.active = e.env.filter (fun t => decide (t.st = .active))
+
+theorem run_stateless (cfg : Cfg) : ∀ (h : List Op) (s : State), AllStateless h → GetsAll s.log →
+    GetsAll (run cfg s h).log
+  | [], _, _, hs => hs
+  | op :: rest, s, ha, hs => by
+    apply run_stateless cfg rest (step cfg s op) (fun op' h' => ha op' (List.mem_cons_of_mem _ h'))
+    cases op with
+    | create st => exact hs
+    | setStatus id st => exact hs
+    | delete id => exact hs
+    | update m =>
+      have hm : m = .stateless := ha _ List.mem_cons_self m rfl
+      subst hm
+      intro e he
+      rcases List.mem_cons.mp he with rfl | he
+      · exact ⟨completedAll_eq s.env, by simp [getTrials]⟩
+      · exact hs e he
 
 end VizierModel.Loader
